@@ -3,25 +3,36 @@ SPEC = {
         "ready": True,
         "sources": ["c06.cpp", "c06_f.cpp", "c06_d.cpp"],
         "lib": [],
-        "technique": "exhaustive enumeration of integer matrix lattices x power-of-two scalings against the exact rational inverse "
-                     "(adjugate / determinant in __int128); one-ulp perturbations of the affine last column",
+        "technique": "exhaustive enumeration of integer matrix lattices x power-of-two row and column scalings against the exact rational inverse "
+                     "(adjugate / determinant in __int128); one-ulp perturbations of the affine last column; single entries replaced by +-2^-k "
+                     "(exact rational inverse by linearity of determinant and adjugate in one entry); scalings that put the exact "
+                     "cofactor/determinant quotients on both sides of the overflow threshold",
         "level_text": "inverse(), inverse(false), gjInverse(), gjInverse(false) and the four in-place forms of Matrix22/33/44<float|double> "
                       "are run on complete integer lattices (all 2401 L(3) 2x2, all 1953125 {0,+-1,+-2} 3x3, all 65536 0/1 4x4 and 1.26 million "
                       "affine 4x4; thorough: all 3^16 {0,+-1} 4x4 and all 4^12 affine {0,+-1,2} 4x4) times power-of-two scalings that straddle "
                       "|det| = 1 in every dimension. The exact inverse is a known rational, so each entry is compared with it under the fixed "
                       "bound 8 cond_inf(M) eps ||M^-1||_inf; exactly singular input must give exactly the identity from the determinant-based "
                       "forms and from Gauss-Jordan wherever an exact zero pivot is provable; in-place forms must equal the value forms bitwise; "
-                      "the affine fast path and the general path must agree to the bound when the last column is perturbed by one ulp.",
+                      "the affine fast path and the general path must agree to the bound when the last column is perturbed by one ulp "
+                      "(or holds a negative zero). Added after the clause audit: rows and columns graded by different powers of two (the pivot row changes); "
+                      "every zero entry of the 2x2/3x3/4x4 lattices replaced by +-2^-k and every non-zero entry moved by two ulps (a pivot search "
+                      "that ignores magnitude loses all accuracy there; nearly singular matrices must stay within the bound while 8 cond eps <= 1/4 and "
+                      "finite up to cond < 1/eps^2); and matrices with a non-zero determinant whose exact cofactor/determinant quotients "
+                      "reach 2^(emax+1): the determinant-based forms must return exactly the identity there, a finite accurate inverse when every "
+                      "exact entry is below max/4, and one of the two in between.",
         "level_note": "Bounded: the accuracy statement is decided on the enumerated lattices and scalings (condition numbers up to a few "
-                      "hundred, and up to 2^20 for column-scaled 2x2), not for arbitrary ill-conditioned floats; the overflow guard "
-                      "(mr > |cofactor|) is reached only through the exactly singular case. The constant c = 8 is taken from the error "
+                      "hundred on the plain lattices; graded scalings and tiny entries reach 2^60 and more, where the bound is correspondingly "
+                      "loose), not for arbitrary ill-conditioned floats; the overflow guard (mr > |cofactor|) is decided on operands whose cofactors "
+                      "and determinant are exactly representable, so the threshold itself is only required to lie in [max/4, 2^(emax+1)]; Gauss-Jordan, "
+                      "which has no overflow guard, is not run on those operands. The constant c = 8 is taken from the error "
                       "analysis in DESIGN.md, not fitted. Gauss-Jordan on singular input outside the provable-zero-pivot classes is "
                       "recorded, not judged.",
         "deadline": {"quick": 200, "thorough": 840},
         "rule": "complete enumeration of the stated lattices x scalings on the real code; non-trivial = by predicates on the exact "
                 "integer input: singular; |det(M)| >= 1 / < 1 (the two scaling branches, per dimension); affine last column (fast path); "
-                "singular with a provable exact zero pivot for Gauss-Jordan; affine last column perturbed by one ulp ('.generic' "
-                "classes excluded)",
+                "singular with a provable exact zero pivot for Gauss-Jordan; affine last column perturbed by one ulp / holding -0; rows or columns "
+                "graded by different powers of two; a zero entry replaced by 2^-k with det(A) != 0 / == 0; exact quotient >= 2^(emax+1), "
+                "< max/4, in between, per dimension and for the affine path ('.generic' classes excluded)",
         "assumptions": ["long double has a 64-bit significand (x86-64)",
                         "default build configuration: g++ -O2 -std=c++14, no FMA contraction, no -ffast-math"],
     }
